@@ -308,13 +308,13 @@ def run_replay(prop, name, script, timeout=600):
     header = (
         "# replay generated by /verif (stand-alone: ordinary tensors, real leaspy from /repo). exit 1 == violation shows\n"
         "import sys, warnings; warnings.filterwarnings('ignore')\n"
-        "sys.path.insert(0, '/repo/src')\n"
+        f"sys.path.insert(0, {os.environ.get('VERIF_REPO_SRC', '/repo/src')!r})\n"
         "import torch\nimport leaspy.models\n"
     )
     with open(path, "w") as f:
         f.write(header + script)
     env = dict(os.environ)
-    env.pop("PYTHONPATH", None)
+    env["PYTHONPATH"] = os.environ.get("VERIF_REPO_SRC", "/repo/src")
     try:
         p = subprocess.run([REPLAY_PY, path], capture_output=True, text=True, timeout=timeout, env=env)
     except subprocess.TimeoutExpired:
